@@ -4,5 +4,6 @@ CONSTANTS
   RN = {"r", "s"}
   XN = {}
   Missing = "zz"
+  FX = {}
 INVARIANTS EmitState
 CHECK_DEADLOCK FALSE
